@@ -39,18 +39,20 @@ theorem layout_split (ps1 ps2 : List Piece) (gs : List Txt) (h : LayoutOk (ps1 +
 /-- an operand kind for which the round trip is proved: its first piece has an unconstrained gap, and
     for every layout of its inner pieces the text is `GoodOp`; the post-processing of the raw operand
     gives what the specification expects -/
-def CoveredOp (last : Bool) (o : OpA) : Prop :=
+def CoveredOp (last fst : Bool) (o : OpA) : Prop :=
   ∃ t1 ps raw, opPieces o = (t1, 1) :: ps ∧
-    (∀ gs, InnerOk ps gs → GoodOp last (t1 ++ joinInner ps gs) raw) ∧
+    (∀ gs, InnerOk ps gs → GoodOp last fst (t1 ++ joinInner ps gs) raw) ∧
     processOperand raw = .ok (expectOp o)
 
-/-- every operand is covered; only the last one may be of a kind that has to be last -/
-def OpsCovered : List OpA → Prop
-  | [] => True
-  | o :: os => CoveredOp os.isEmpty o ∧ OpsCovered os
+/-- every operand is covered at its position; only the last one may be of a kind that has to be last,
+    and the first one must be of a kind that may stand first (`fst` = the head of the list is the
+    first operand of the line) -/
+def OpsCovered : Bool → List OpA → Prop
+  | _, [] => True
+  | fst, o :: os => CoveredOp os.isEmpty fst o ∧ OpsCovered false os
 
 /-- the later operands of a rendered line have the shape `restText` -/
-theorem rest_ops_form (os : List OpA) (cps : List Piece) (gs : List Txt) (hc : OpsCovered os)
+theorem rest_ops_form (os : List OpA) (cps : List Piece) (gs : List Txt) (hc : OpsCovered false os)
     (h : LayoutOk (opsPieces false os ++ cps) gs) :
     ∃ (slots : List Slot) (gs' : List Txt), SlotsOk slots ∧ slots.length = os.length ∧ LayoutOk cps gs' ∧
       joinPieces (opsPieces false os ++ cps) gs = restText slots (joinPieces cps gs') ∧
@@ -139,7 +141,7 @@ theorem parseLine_instr (line : Txt) (h1 : commentLine line = none) (h2 : llvmMa
 
 /-- **round trip of a rendered instruction line** for every instruction whose operands are covered:
     ∀ mnemonic, ∀ operand lists that fit the slots, ∀ layout, ∀ trailing comment -/
-theorem roundtrip_covered (a : InstrA) (gaps : List Txt) (hok : InstrOk a) (hc : OpsCovered a.ops)
+theorem roundtrip_covered (a : InstrA) (gaps : List Txt) (hok : InstrOk a) (hc : OpsCovered true a.ops)
     (hl : LayoutOk (linePieces a) gaps) : parseLine (render a gaps) = .ok (expectLine a) := by
   obtain ⟨m, ms, hmn, hmc, hm46⟩ := hok.mn
   unfold render
